@@ -6,8 +6,10 @@ spec/ExprTree.tla, three machines:
   algebra  expression trees over + - * / ** neg with Constant / Symbol / raw int / raw str leaves;
            exact value of the written expression at rational points (Terms!EvalQR);
   laws     the named models as terms: class x order x override pattern x parameter set x
-           temperature x mode; exact value where rational, otherwise the instantiated term (with
-           the gas constant and kB/h bracketed) for the generic eval_term.
+           temperature x mode x history (the same expression again / through Reaction.rate / a
+           companion reaction in between, all with ONE variables mapping that must come back
+           unchanged); exact value where rational, otherwise the instantiated term (with the gas
+           constant and kB/h bracketed) for the generic eval_term.
 spec -> code : every terminal state is a case; this module builds the real objects from the case,
                evaluates them under math / numpy / sympy-then-substitute / quantities and projects
                the result to a number (or an exception class name).  Expected values, terms,
@@ -27,7 +29,9 @@ import terms
 LEVEL = "exploration"
 RULE = ("cases = terminal states of ExprTree_MC (resolve: every argument-source configuration with "
         "nargs<=3; algebra: every expression tree within the leaf/depth bounds at 3 rational points; "
-        "laws: class x order x override pattern x parameter set x temperature x mode) replayed into "
+        "laws: class x order x override pattern x parameter set x temperature x mode (math, numpy, "
+        "numpy arrays, sympy, quantities) x history of <= 3 evaluations sharing one variables mapping, "
+        "with the frame condition 'mapping unchanged') replayed into "
         "the real classes, plus seeded deeper trees judged by TLC (ExprTreeTrace); an evaluation = one "
         "(case, backend) observation compared with the TLC value (exact rational) or with the "
         "eval_term value of the TLC term; distinct = distinct case inputs; non-trivial = not a bare "
